@@ -33,7 +33,9 @@ SPEC = {
     "runs": {"quick": 100, "thorough": 2500},
     "wall": {"quick": 900, "thorough": 7200},
     "chunk": 1,
-    "min_budget": 60.0,
+    "min_budget": 40.0,
+    "max_minimise": 4,
+    "minimise_wall": 150,
     "level": "fault_enumeration",
     "technique": "deterministic simulation with fault injection: forked writer/restart process pairs; per seeded history every op boundary (clean exit, body exception), every engine call (kill before/after) and every file-system call (kill / torn write via LD_PRELOAD shim) is enumerated; restart state checked against a durability acceptance set",
     "level_text": (
@@ -76,9 +78,9 @@ def gen(rng: Any, prop: str, tier: str) -> dict[str, Any]:
     g = Gen(rng, Model(), vary_spelling=False)
     two = rng.random() < 0.3
     sids = ["s0", "s1"] if two else ["s0"]
-    g.connect("s0", "DB1", "S1")
+    g.connect("s0", rng.choice(["DB1", "db1", "Db1"]), rng.choice(["S1", "s1"]))
     if two:
-        g.connect("s1", "DB1", rng.choice(["S1", "S2"]))
+        g.connect("s1", rng.choice(["DB1", "db1"]), rng.choice(["S1", "S2", "s2"]))
     n = rng.randint(3, 12)
     txn_owner: str | None = None
     vtype = "VARCHAR(20)" if hazards["multi_call_statement"] else "INT"  # any text column makes CREATE TABLE a multi-call statement
@@ -161,20 +163,24 @@ def gen(rng: Any, prop: str, tier: str) -> dict[str, Any]:
 # --------------------------------------------------------------------------- snapshot of a db_path instance
 
 
-def snapshot_dbpath(sim: core.Sim, D: str) -> dict[str, Any]:
+def snapshot_dbpath(sim: core.Sim, D: str, names_hint: list[str] | None = None, alt_case: int = 0) -> dict[str, Any]:
     """Observable state of the instance inside the current `with fakesnow.patch(db_path=D)`: connect to every
     database that has a file, then catalog + rows (engine system functions) and comments + VARCHAR lengths (API)."""
     import snowflake.connector
     from fakesnow.instance import GLOBAL_DATABASE_NAME
 
     with sim.quiet():
-        files = sorted(f[:-3] for f in os.listdir(D) if f.endswith(".db"))
+        on_disk = sorted(f[:-3] for f in os.listdir(D) if f.endswith(".db"))
+        # "connects to the same database": by NAME (unquoted names are case-insensitive), in a spelling that need not
+        # be the writer's; a name is only connected to when a file for it exists (connect would otherwise create it)
+        names = sorted({f.upper() for f in on_disk} if not names_hint else {n for n in names_hint if n.lower() in {f.lower() for f in on_disk}})
+        files = names
         fs = snowflake.connector.connect.side_effect.__self__  # the FakeSnow instance behind the patch
         conns = {}
         errors = {}
-        for db in files:
+        for i, db in enumerate(names):
             try:
-                conns[db] = snowflake.connector.connect(database=db)
+                conns[db] = snowflake.connector.connect(database=(db.lower() if (i + alt_case) % 2 else db))
             except BaseException as e:  # noqa: BLE001
                 errors[db] = f"{type(e).__name__}: {str(e)[:160]}"
         cur = core.raw(fs.duck_conn).cursor()
@@ -284,13 +290,13 @@ def proc_a(w: int, D: str, case: dict[str, Any], fault: dict[str, Any], referenc
     os._exit(0)
 
 
-def proc_b(w: int, D: str) -> None:
+def proc_b(w: int, D: str, names: list[str] | None = None) -> None:
     import fakesnow
 
     sim = core.begin(D)
     try:
         with sim.quiet(), fakesnow.patch(db_path=D):
-            snap = snapshot_dbpath(sim, D)
+            snap = snapshot_dbpath(sim, D, names, alt_case=1)
         _emit(w, {"ev": "snap", "snap": snap, "listing": sorted(os.listdir(D))})
     except BaseException as e:  # noqa: BLE001
         _emit(w, {"ev": "restart_error", "error": f"{type(e).__name__}: {str(e)[:300]}"})
@@ -375,7 +381,7 @@ def judge(case: dict[str, Any], fault: dict[str, Any], recs_a: list[dict[str, An
     if inflight is None:
         d = diff(snap_b, before)
         if d:
-            return v_(f"after-{fault['kind']}/{'+'.join(d)}", "the restart does not show exactly the committed state",
+            return v_(f"after-{fault['kind']}/state-differs", "the restart does not show exactly the committed state",
                       {"fault": fault, "last_acknowledged_op": last_done, "diff": explain(snap_b, before, d)})
         return None
     op = case["ops"][inflight]
@@ -439,6 +445,7 @@ def run(case: dict[str, Any]) -> dict[str, Any]:
         oks = {r["i"]: r for r in recs if r["ev"] == "op_done"}
         if code != 0 or len(snaps) != len(case["ops"]):
             raise core.HarnessError(f"reference run did not complete: exit {code}, {len(snaps)}/{len(case['ops'])} snapshots")
+        all_names = sorted({d for sn in snaps for d in sn["dbs"]})
         shutil.rmtree(D, ignore_errors=True)
         D = os.path.join(base, "cnt")
         os.makedirs(D)
@@ -477,7 +484,7 @@ def run(case: dict[str, Any]) -> dict[str, Any]:
             D = os.path.join(base, f"p{pi}")
             os.makedirs(D)
             code, ra = in_child(proc_a, D, case, fault, False)
-            _, rb = in_child(proc_b, D)
+            _, rb = in_child(proc_b, D, all_names)
             pairs += 1
             shutil.rmtree(D, ignore_errors=True)
             started = [r["i"] for r in ra if r["ev"] == "op_start"]
@@ -508,8 +515,11 @@ def run(case: dict[str, Any]) -> dict[str, Any]:
                 violation = judge(case, fault, ra, snap_b, snaps, empty)
                 if violation is None:
                     stray = [f for f in rb[0]["listing"] if not (f.endswith(".db") or f.endswith(".db.wal") or f.endswith(".wal"))]
+                    dbfiles = [f.lower() for f in rb[0]["listing"] if f.endswith(".db")]
                     if stray:
                         violation = v_("stray-file", "unexpected file in the db_path directory", {"fault": fault, "files": stray})
+                    elif len(dbfiles) != len(set(dbfiles)):
+                        violation = v_("duplicate-database-file", "one database has two files differing only in letter case", {"fault": fault, "files": rb[0]["listing"]})
             if violation is not None and not any(v["signature"] == violation["signature"] for v in violations):
                 # crash points are independent experiments: keep enumerating, report each distinct signature once
                 violation["case_update"] = {"points": [fault]}
